@@ -197,6 +197,29 @@ def shard(ctx):
             if len(ctx.res.samples) < 2 and sname == "yaml-block":
                 ctx.sample({"model": model, "yaml_block_text": text[:500]})
 
+    # ---------------------------------------------------------------- JSON string escapes (what `json.dumps` with ensure_ascii writes)
+    if ctx.mine(2):
+        probes = [("bmp-escape", '{"a": "caf\\u00e9", "b": [1, "\\u65e5\\u672c"]}'), ("solidus-and-controls", '{"a": "x\\/y\\b\\f\\n\\r\\t\\"q\\\\"}'),
+                  ("surrogate-pair", '{"a": "go \\ud83d\\ude80", "b": 1}'), ("surrogate-pair-key", '{"k\\ud83d\\ude80": 1}'), ("raw-astral", '{"a": "go \U0001F680", "b": 1}'),
+                  ("nul-escape", '{"a": "x\\u0000y"}'), ("escaped-ascii", '{"\\u0061": "\\u0041"}')]
+        for name, text in probes:
+            model = json.loads(text)
+            for which in ("validate", "serde"):
+                r = ctx.w.run({"k": "load", "which": which, "text": text})
+                ctx.res.cases += 1
+                ctx.res.counts["json_escape_probes"] += 1
+                case = {"kind": "load", "which": which, "style": "json-escapes:" + name, "text": text, "model": model}
+                if r.get("r") != "ok":
+                    if core.crash_signature(r):
+                        ctx.inconclusive("crash")
+                    else:
+                        ctx.violation("json-escapes:%s:%s:rejected" % (name, which), "well-formed JSON %s is rejected by the %s loader: %s" % (text, which, (r.get("err") or "")[:120]), case)
+                    continue
+                got = from_dump(json.loads(r["out"]))
+                if not strict_eq(got, model):
+                    ctx.violation("json-escapes:%s:%s:value" % (name, which), "%s loader reads %s as %r" % (which, text, got), case)
+                else:
+                    ctx.res.distinct.add(("json-escapes", name, which))
     # ---------------------------------------------------------------- YAML core-schema tags (!!str, !!int, ...): explicit typing of a scalar
     if ctx.mine(1):
         core_tags = [("!!str 5", "5"), ("!!str true", "true"), ("!!str null", "null"), ("!!str ''", ""), ("!!int 5", 5), ("!!int '7'", 7), ("!!int -3", -3),
